@@ -59,6 +59,12 @@ bool DyndepLoader::LoadDyndeps(Node* node, DyndepFile* ddf,
       return false;
     }
 
+    // An edge can be listed more than once among the out-edges of the dyndep
+    // node: as a declared input and again as a dependency discovered through
+    // a depfile or the deps log.  Update it only once.
+    if (ddi->second.used_)
+      continue;
+
     ddi->second.used_ = true;
     Dyndeps const& dyndeps = ddi->second;
     if (!UpdateEdge(edge, &dyndeps, err)) {
